@@ -1212,6 +1212,18 @@ func (x *Exec) loopEnv(st *State, f *Frame, lp int) *Env {
 	env.frame = f
 	li := x.eng.loops(f.fn)
 	hdr := li.hdrOf[lp]
+	// $i@k of every loop whose header has been entered
+	for k, h := range li.hdrOf {
+		for _, in := range h.Instrs {
+			phi, ok := in.(*ssa.Phi)
+			if !ok {
+				break
+			}
+			if v, ok := f.vals[phi]; ok && phi.Comment == "rangeindex" {
+				env.vars[fmt.Sprintf("$i@%d", k)] = TV{Sc{Add(v.(Sc).T, IntLit(1))}, types.Typ[types.Int]}
+			}
+		}
+	}
 	for _, in := range hdr.Instrs {
 		phi, ok := in.(*ssa.Phi)
 		if !ok {
